@@ -190,7 +190,7 @@ impl Check for C04 {
             }
         }
         // sentinel lines of this run (integers only, so that separator changes do not alter their meaning)
-        let sentinels: Vec<String> = {
+        let mut sentinels: Vec<String> = {
             let mut v = Vec::new();
             let a = r.pick(&g.rated).to_lowercase();
             let b = r.pick(&g.rated).to_lowercase();
@@ -205,6 +205,21 @@ impl Check for C04 {
             if r.chance(1, 4) { v.clear(); }
             v
         };
+        // swarm: a quarter of the runs start with a user family whose items also answer to built-in unit names
+        if r.chance(1, 4) {
+            let fam = format!("fam{}", r.below(3));
+            events.push(Event { actor: ADMIN, op: Op::Admin(AdminOp::AddType { name: fam.clone() }), clock: ClockScript::Frozen { t } });
+            for idx in 1..=(2 + r.below(2) as usize) {
+                let unit = format!("{}u{}", fam, idx);
+                let shared = r.pick(&["mile", "meter", "gram", "inch"]).to_string();
+                let src = match shared.as_str() { "mile" => "furlong", "meter" => "km", "gram" => "kg", _ => "yard" };
+                if sentinels.len() < 9 {
+                    sentinels.push(format!("{} {} to {}", 8 * (1 + r.below(8)), unit, shared));
+                    sentinels.push(format!("{} {} to {}", 1 + r.below(40), src, shared));
+                }
+                events.push(Event { actor: ADMIN, op: Op::Admin(AdminOp::AddTypeItem(TypeItemSpec { family: fam.clone(), index: idx, format: format!("{{value}} {}", unit), parse: vec![format!("{{NUMBER:value}} {{TEXT:type:{}}}", unit)], upgrade: "{value} / 2".into(), downgrade: "{value} * 2".into(), names: vec![unit, shared] })), clock: ClockScript::Frozen { t } });
+            }
+        }
         let total: u64 = cls.iter().map(|c| c.steps).sum();
         let mut budget = total + 30;
         while cls.iter().any(|c| c.steps > 0) && budget > 0 {
@@ -216,6 +231,17 @@ impl Check for C04 {
             if who == cls.len() {
                 let op = gen_admin(&mut r, &g, &mut rule_counter, faults);
                 if let AdminOp::SetDecimalSep { s } = &op { dec = s.clone(); }
+                if let AdminOp::AddTypeItem(it) = &op {
+                    // a user unit that also answers to the name of a built-in unit: from now on every client keeps
+                    // converting to that name from the user family AND from a built-in family
+                    if it.names.len() > 1 && sentinels.len() < 9 {
+                        let shared = it.names[1].clone();
+                        // a source unit of the built-in family that owns the shared name
+                        let src = match shared.as_str() { "mile" => "furlong", "meter" => "km", "gram" => "kg", _ => "yard" };
+                        sentinels.push(format!("{} {} to {}", 8 * (1 + r.below(8)), it.names[0], shared));
+                        sentinels.push(format!("{} {} to {}", 1 + r.below(40), src, shared));
+                    }
+                }
                 events.push(Event { actor: ADMIN, op: Op::Admin(op), clock: ClockScript::Frozen { t } });
                 continue;
             }
